@@ -79,6 +79,8 @@ type c20Ref struct {
 	Repo string `json:"repo"`
 	ID   string `json:"id"`
 	Dig  bool   `json:"dig"`
+	Str  string `json:"str"` // ref.String(): what is written to spec.package
+	Src  string `json:"src"` // xpkg.ParsePackageSourceFromReference(ref): the key of the installer's index
 }
 
 type c20Pkg struct {
@@ -155,7 +157,10 @@ type c20CrdFile struct {
 	Content  int      `json:"content"`
 	Versions []c20Ver `json:"versions"`
 	Conv     bool     `json:"conv"`
-	WH       int      `json:"wh"` // YAML shape only: 0 webhook+clientConfig, 1 no webhook key, 2 no clientConfig
+	// YAML shape only: 0 webhook+clientConfig, 2 webhook without clientConfig. (1 = no webhook key at all is
+	// not generated: the step then sends conversionReviewVersions: null, which a real API server rejects and
+	// simstore would store verbatim.)
+	WH int `json:"wh"`
 }
 
 type c20WhcFile struct {
@@ -246,9 +251,7 @@ type c20RunObs struct {
 type c20ImgObs struct {
 	Img  string `json:"img"`
 	OK   bool   `json:"ok"`
-	Src  string `json:"src"`
-	Str  string `json:"str"`
-	Name string `json:"name"`
+	Name string `json:"name"` // xpkg.ToDNSLabel(repository)
 }
 
 type c20Obs struct {
@@ -377,7 +380,8 @@ func c20Parse(img string) *c20Ref {
 		return nil
 	}
 	_, dig := ref.(name.Digest)
-	return &c20Ref{Reg: ref.Context().RegistryStr(), Repo: ref.Context().RepositoryStr(), ID: ref.Identifier(), Dig: dig}
+	return &c20Ref{Reg: ref.Context().RegistryStr(), Repo: ref.Context().RepositoryStr(), ID: ref.Identifier(), Dig: dig,
+		Str: ref.String(), Src: xpkg.ParsePackageSourceFromReference(ref)}
 }
 
 func c20ImgObsOf(img string) c20ImgObs {
@@ -385,7 +389,7 @@ func c20ImgObsOf(img string) c20ImgObs {
 	if err != nil {
 		return c20ImgObs{Img: img}
 	}
-	return c20ImgObs{Img: img, OK: true, Src: xpkg.ParsePackageSourceFromReference(ref), Str: ref.String(), Name: xpkg.ToDNSLabel(ref.Context().RepositoryStr())}
+	return c20ImgObs{Img: img, OK: true, Name: xpkg.ToDNSLabel(ref.Context().RepositoryStr())}
 }
 
 // ---------------------------------------------------------------- runner
@@ -477,6 +481,7 @@ func (w *c20World) runOnce(s *c20Scn, r c20Run, mons *[]Mon) c20Result {
 	switch {
 	case st.Crashed():
 		o.Res = "crash"
+		o.Done = 0 // the model has no result for a crashed run
 	case err != nil:
 		o.Res = "err"
 	default:
@@ -606,11 +611,21 @@ func (w *c20World) watch(s *c20Scn, mons *[]Mon) {
 	}
 }
 
+// c20Content: snapshot without resourceVersion / generation (content equality).
+func c20Content(m map[string]string) map[string]string {
+	out := map[string]string{}
+	for k, v := range m {
+		out[k] = c20StripRV(v)
+	}
+	return out
+}
+
 func c20StripRV(s string) string {
 	var m map[string]any
 	_ = json.Unmarshal([]byte(s), &m)
 	if md, ok := m["metadata"].(map[string]any); ok {
 		delete(md, "resourceVersion")
+		delete(md, "generation")
 	}
 	b, _ := json.Marshal(m)
 	return string(b)
@@ -694,17 +709,37 @@ func (w *c20World) verifyLeaf(st *Store, ns string, sec *corev1.Secret, steps []
 	}
 }
 
-type c20RegRepo struct{ kind, reg, repo string }
+type c20RegRepo struct{ kind, name string }
 
-func c20PkgIndex(st c20Store) map[c20RegRepo][]string {
-	idx := map[c20RegRepo][]string{}
+// c20WrittenName is the monitor's own notion of "the image repository, for any
+// registry host": the reference as written with "@digest" and ":tag" cut off -
+// the doc comment of xpkg.ParsePackageSourceFromReference ("the identifier (tag
+// or digest) stripped and no other changes"), implemented independently.
+func c20WrittenName(img string) string {
+	s, _, _ := strings.Cut(img, "@")
+	if i := strings.LastIndex(s, ":"); i > strings.LastIndex(s, "/") {
+		s = s[:i]
+	}
+	return s
+}
+
+func c20PkgIndex(st c20Store) map[c20RegRepo][]c20Pkg {
+	idx := map[c20RegRepo][]c20Pkg{}
 	for _, p := range st.Pkgs {
 		if r := c20Parse(p.Raw); r != nil {
-			k := c20RegRepo{p.Kind, r.Reg, r.Repo}
-			idx[k] = append(idx[k], p.Name)
+			k := c20RegRepo{p.Kind, c20WrittenName(p.Raw)}
+			idx[k] = append(idx[k], p)
 		}
 	}
 	return idx
+}
+
+func c20Names(ps []c20Pkg) []string {
+	out := []string{}
+	for _, p := range ps {
+		out = append(out, p.Name)
+	}
+	return out
 }
 
 // c20PostMonitors: end-of-run monitors.
@@ -712,33 +747,58 @@ func (w *c20World) postMonitors(s *c20Scn, before c20Store, res c20Result, mons 
 	steps := w.stepsOf(s)
 	after := res.obs.Store
 	add := func(sig, why string) { *mons = append(*mons, Mon{Sig: sig, Why: why}) }
-	// packages: at every outcome, an image whose (registry, repository) was installed is never installed under a second name
+	// packages: at every outcome, an image whose (registry host, repository) was installed is never installed under a second name
 	bi, ai := c20PkgIndex(before), c20PkgIndex(after)
+	installs := 0
+	for _, st := range steps {
+		if st.T == "install" {
+			installs++
+		}
+	}
 	for _, st := range steps {
 		if st.T != "install" {
 			continue
 		}
-		for kind, imgs := range map[string][]c20Img{"P": st.P, "C": st.C, "F": st.F} {
-			for _, im := range imgs {
+		for _, ki := range []struct {
+			kind string
+			imgs []c20Img
+		}{{"P", st.P}, {"C", st.C}, {"F", st.F}} {
+			kind := ki.kind
+			for i, im := range ki.imgs {
 				r := c20Parse(im.Img)
 				if r == nil {
 					continue
 				}
-				k := c20RegRepo{kind, r.Reg, r.Repo}
+				k := c20RegRepo{kind, c20WrittenName(im.Img)}
 				if len(bi[k]) > 0 && len(ai[k]) > len(bi[k]) {
-					add("C20:duplicate-package", fmt.Sprintf("image %q: its registry/repository was already installed as %v, now installed as %v", im.Img, bi[k], ai[k]))
+					sig := "C20:duplicate-package-source-parse" // same image name as written, yet the repo's "source" strings differ
+					for _, b := range bi[k] {
+						if br := c20Parse(b.Raw); br != nil && br.Src == r.Src {
+							sig = "C20:duplicate-package" // the index had the source, the lookup missed it
+						}
+					}
+					add(sig, fmt.Sprintf("image %q: its registry/repository was already installed as %v, now installed as %v", im.Img, c20Names(bi[k]), c20Names(ai[k])))
 				}
-				if len(bi[k]) > 0 && res.obs.Res == "ok" {
+				// updated in place (only judged when no other requested image competes for the same object)
+				contested := false
+				for j, other := range ki.imgs {
+					if or := c20Parse(other.Img); j != i && or != nil {
+						if or.Repo == r.Repo || xpkg.ToDNSLabel(or.Repo) == xpkg.ToDNSLabel(r.Repo) {
+							contested = true
+						}
+						for _, b := range bi[k] {
+							if b.Name == xpkg.ToDNSLabel(or.Repo) {
+								contested = true
+							}
+						}
+					}
+				}
+				if len(bi[k]) > 0 && res.obs.Res == "ok" && !contested && installs == 1 {
 					found := false
 					for _, p := range after.Pkgs {
-						if p.Kind != kind {
-							continue
-						}
-						for _, n := range bi[k] {
-							if p.Name == n {
-								if pr := c20Parse(p.Raw); pr != nil && pr.Reg == r.Reg && pr.Repo == r.Repo {
-									found = true
-								}
+						for _, b := range bi[k] {
+							if p.Kind == kind && p.Name == b.Name && p.Raw == r.Str {
+								found = true
 							}
 						}
 					}
@@ -789,7 +849,7 @@ func (w *c20World) postMonitors(s *c20Scn, before c20Store, res c20Result, mons 
 				if !ok {
 					add("C20:ca-bundle-missing", "CRD "+o.Crd.Name+" does not carry the current CA bundle")
 				}
-			case st.T == "whcs" && o.T == "whc":
+			case st.T == "whcs" && o.T == "whc" && len(o.Whc.Hooks) > 0:
 				nm := c20WhcName(o.Whc)
 				ok := false
 				for _, c := range after.Whcs {
@@ -852,8 +912,32 @@ func c20RunScn(s *c20Scn) (c20Obs, []Mon) {
 		w.postMonitors(s, before, res, &mons)
 		faultFree := s.Runs[i].K < 0 || s.Runs[i].K >= res.calls
 		if i > 0 && prev.obs.Res == "ok" && res.obs.Res == "ok" && faultFree {
-			if !reflect.DeepEqual(prev.after, res.after) || res.obs.Writes != 0 {
-				mons = append(mons, Mon{Sig: "C20:not-idempotent", Why: fmt.Sprintf("a second complete run changed the store (%d changing writes)", res.obs.Writes)})
+			// Two declarations that resolve to one object (two requested images with one object name, two files
+			// with one name) overwrite each other on every run: then only the content is compared, and for
+			// packages (whose name resolution depends on the sources stored at the start of the run) nothing.
+			contested, pkgContested := c20Contested(res.obs.Log)
+			_, prevPkgContested := c20Contested(prev.obs.Log)
+			a, b := c20Content(prev.after), c20Content(res.after)
+			if pkgContested || prevPkgContested {
+				for _, m := range []map[string]string{a, b} {
+					for k := range m {
+						if strings.HasPrefix(k, "Provider.") || strings.HasPrefix(k, "Configuration.") || strings.HasPrefix(k, "Function.") {
+							delete(m, k)
+						}
+					}
+				}
+			}
+			if !reflect.DeepEqual(a, b) {
+				why := "a second complete run changed the store:"
+				for k, v := range b {
+					if a[k] != v {
+						why += fmt.Sprintf(" %s: %s -> %s;", k, a[k], v)
+					}
+				}
+				mons = append(mons, Mon{Sig: "C20:not-idempotent", Why: why})
+			}
+			if res.obs.Writes != 0 && !contested {
+				mons = append(mons, Mon{Sig: "C20:not-idempotent", Why: fmt.Sprintf("a second complete run performed %d changing writes", res.obs.Writes)})
 			}
 			if res.genN != 0 {
 				mons = append(mons, Mon{Sig: "C20:not-idempotent", Why: "a second complete run generated certificates"})
@@ -872,6 +956,25 @@ func c20RunScn(s *c20Scn) (c20Obs, []Mon) {
 		prev = res
 	}
 	return obs, mons
+}
+
+// c20Contested: some object is written twice in one run (any kind / a package kind).
+func c20Contested(log []string) (any, pkg bool) {
+	seen := map[string]bool{}
+	for _, l := range log {
+		p := strings.SplitN(l, ":", 2)
+		if len(p) != 2 || (p[0] != "patch" && p[0] != "create") {
+			continue
+		}
+		if seen[p[1]] {
+			any = true
+			if strings.HasPrefix(p[1], "P:") || strings.HasPrefix(p[1], "C:") || strings.HasPrefix(p[1], "F:") {
+				pkg = true
+			}
+		}
+		seen[p[1]] = true
+	}
+	return
 }
 
 func c20Cls(s *c20Scn, o c20Obs) string {
